@@ -310,3 +310,33 @@ where
     }
     task::Poll::Pending
 }
+
+/// Multishot counterpart of [`poll_model_submit_only`] (stub for `poll_next`).
+pub(crate) fn poll_next_model_submit_only<T, O, R, A, Out>(
+    target: &T,
+    state: &mut State<O, R, A>,
+    _ctx: &mut task::Context<'_>,
+    fill_submission: impl Fn(&T, &mut R, &mut A, &mut Submission),
+    _map_next: impl Fn(&T, &R, OpReturn) -> Out,
+    _fallback: impl Fn(&T, &R, &mut A, std::io::Error) -> std::io::Result<Out>,
+) -> task::Poll<Option<std::io::Result<Out>>>
+where
+    T: OpTarget,
+    O: OpResult,
+{
+    let data = unsafe { state.data.as_mut() };
+    let resources = unsafe { data.tail.resources.get_mut().assume_init_mut() };
+    let mut sub = k::new_submission();
+    fill_submission(target, resources, &mut data.tail.args, &mut sub);
+    target.set_flags(&mut sub);
+    unsafe {
+        MODEL_REQUEST = k::submission_view(&sub);
+        MODEL_REQUESTS += 1;
+    }
+    task::Poll::Pending
+}
+
+/// Address of the resources stored in an operation's state.
+pub(crate) fn resources_addr<T, R, A>(s: &State<T, R, A>) -> usize {
+    unsafe { s.data.as_ref().tail.resources.get().addr() }
+}
